@@ -237,7 +237,7 @@ theorem C06_not_late_unshortened (now0 : Nat) (ops : List Op) (n : Nat) (hs : no
 `opsExt`: a hold with E = 10 is re-locked (extended) after 3 s — the hypothesis of `C06_not_late_unshortened` holds.
 `opsShort`: a hold with E = 100 has backed off to an 8-second slot distance after 35 s; an update then sets E = 0
 (deadline 136). The record stays in its slot (second 144): at server time 143 it is still live, 7 s past the deadline
-(`now + 1 = deadline + MAX_WAIT`, the bound of `C06_not_late` is attained), and EXPRIED is sent by the tick of second 144. -/
+(`now + 1 = deadline + MAX_WAIT`, the bound of `C06_not_late` is attained), and it is expired by the tick of second 144. -/
 def A : Cmd := { req := 1, conn := 1, flag := 0, lockId := 1, key := 7, tflag := 0, timeout := 0, eflag := 0, expried := 10, count := 0, rcount := 5 }
 def A' : Cmd := { A with req := 2, expried := 20 }
 def opsExt : List Op := [.lock A, .tick, .tick, .tick, .lock A', .tick]
@@ -253,6 +253,6 @@ set_option maxRecDepth 100000 in
 example : (run (DB.init 100) (opsShort 8)).now = 143 ∧
     ((run (DB.init 100) (opsShort 8)).getKey 7).holders.map (fun h => (h.expT, h.sched.visit, h.sched.long)) = [(136, 144, false)] := by decide
 set_option maxRecDepth 100000 in
-example : (opTick (run (DB.init 100) (opsShort 8))).2.map (fun r => (r.req, r.result)) = [(2, RESULT_EXPRIED)] := by decide
+example : (run (DB.init 100) (opsShort 9)).now = 144 ∧ ((run (DB.init 100) (opsShort 9)).getKey 7).holders = [] := by decide
 
 end Slock.C06
